@@ -10,6 +10,7 @@ use std::convert::TryFrom;
 pub trait SObj {
     fn process(&mut self, i: &[u8], outlen: usize) -> Vec<u8>;
     fn process_mut(&mut self, i: &[u8]) -> Vec<u8>;
+    fn process_inplace(&mut self, d: &mut [u8]);
     fn seek(&mut self, _n: u32) {
         panic!("seek unsupported")
     }
@@ -30,6 +31,9 @@ macro_rules! sobj_common {
             let mut o = i.to_vec();
             self.0.process_mut(&mut o);
             o
+        }
+        fn process_inplace(&mut self, d: &mut [u8]) {
+            self.0.process_mut(d)
         }
     };
 }
@@ -122,6 +126,10 @@ impl<const R: usize> SObj for Portable<R> {
             self.off += 1;
         }
         o
+    }
+    fn process_inplace(&mut self, d: &mut [u8]) {
+        let r = self.process_mut(d);
+        d.copy_from_slice(&r);
     }
     fn seek(&mut self, n: u32) {
         self.st.set_counter(n);
@@ -242,6 +250,35 @@ fn history(a: &[&str]) -> Vec<String> {
             "pm" => {
                 let d = expand(p[2]);
                 step(&mut out, || Some(hex(&objs[o].as_mut().unwrap().process_mut(&d))))
+            }
+            // pms.O.DATA.OFF.c1,c2,.. : in-place processing of consecutive sub-slices of ONE buffer whose first byte sits at
+            // offset OFF of a 64-byte aligned allocation (callers may hand arbitrarily aligned sub-slices to process_mut)
+            "pms" => {
+                let d = expand(p[2]);
+                let off = usz(p[3]);
+                let cuts: Vec<usize> = if p[4] == "-" { vec![] } else { p[4].split(',').map(usz).collect() };
+                step(&mut out, || {
+                    #[repr(align(64))]
+                    #[derive(Clone)]
+                    struct Al([u8; 64]);
+                    let n = (d.len() + off + 63) / 64 + 1;
+                    let mut buf = vec![Al([0u8; 64]); n];
+                    let bytes: &mut [u8] = unsafe { std::slice::from_raw_parts_mut(buf.as_mut_ptr() as *mut u8, n * 64) };
+                    // a recognisable guard pattern around the data
+                    for b in bytes.iter_mut() {
+                        *b = 0xa5;
+                    }
+                    bytes[off..off + d.len()].copy_from_slice(&d);
+                    let mut a = off;
+                    let ob = objs[o].as_mut().unwrap();
+                    for c in &cuts {
+                        ob.process_inplace(&mut bytes[a..a + c]);
+                        a += c;
+                    }
+                    assert_eq!(a, off + d.len(), "HARNESS: cuts do not cover the data");
+                    let guard_ok = bytes[..off].iter().all(|b| *b == 0xa5) && bytes[off + d.len()..].iter().all(|b| *b == 0xa5);
+                    Some(format!("{}{}", hex(&bytes[off..off + d.len()]), if guard_ok { "" } else { ":GUARD-OVERWRITTEN" }))
+                })
             }
             "s" => {
                 let n = u64p(p[2]) as u32;
